@@ -91,12 +91,59 @@ def parse_sql(sql: str) -> dict:
     return out
 
 
-def statements(fi: FunctionInfo) -> list[tuple[ast.Call, dict]]:
+def _sql_helpers(ci: ClassInfo | None) -> dict[str, int]:
+    """Methods that execute one of their own parameters as SQL
+    (`def _run(self, sql, params): ... cursor.execute(sql, params)`):
+    name -> index of that parameter (self excluded)."""
+    out: dict[str, int] = {}
+    if ci is None:
+        return out
+    for name, m in ci.methods.items():
+        params = [p for p in m.params if p != "self"]
+        for c in calls(m.node):
+            mc = method_call(c)
+            if mc and mc[1] in ("execute", "executemany") and c.args and isinstance(c.args[0], ast.Name) and c.args[0].id in params:
+                out[name] = params.index(c.args[0].id)
+    return out
+
+
+def _literal_sql(a: ast.AST) -> str | None:
+    if isinstance(a, ast.Constant) and isinstance(a.value, str):
+        return " ".join(a.value.split())
+    return None
+
+
+def statements(fi: FunctionInfo, scope: str = "all") -> list[tuple[ast.Call, dict]]:
+    """SQL statements of a method as (call, parsed SQL); for every call
+    ``call.args[0]`` is the SQL and ``call.args[1]`` (if any) the bindings.
+      own        literal SQL in execute() calls of the method
+      delegated  literal SQL the method passes to a helper of its class that
+                 executes its parameter (the statement belongs to this method,
+                 the transaction to the helper)
+      received   for such a helper: its execute(<param>) call, once per literal
+                 SQL its callers pass
+    scope: all = own + delegated; local = own + received."""
     out = []
+    ci = fi.cls
+    helpers = _sql_helpers(ci)
     for c in calls(fi.node):
         s = sql_of(c)
         if s is not None:
             out.append((c, parse_sql(s)))
+            continue
+        d = dotted(c.func) or ""
+        if scope == "all" and d.startswith("self.") and d[5:] in helpers and len(c.args) > helpers[d[5:]]:
+            lit_sql = _literal_sql(c.args[helpers[d[5:]]])
+            if lit_sql is not None and helpers[d[5:]] == 0:
+                out.append((c, parse_sql(lit_sql)))
+    if scope == "local" and ci is not None and fi.node.name in helpers:
+        idx = helpers[fi.node.name]
+        ex = next(c for c in calls(fi.node) if method_call(c) and method_call(c)[1] in ("execute", "executemany") and c.args and isinstance(c.args[0], ast.Name))
+        for m in ci.methods.values():
+            for c in calls(m.node):
+                if dotted(c.func) == f"self.{fi.node.name}" and len(c.args) > idx:
+                    lit_sql = _literal_sql(c.args[idx])
+                    out.append((ex, parse_sql(lit_sql) if lit_sql is not None else {"verb": "?", "sql": norm(c.args[idx]), "where": [], "cols": [], "table": None, "nparams": 0}))
     return out
 
 
@@ -113,8 +160,11 @@ def rule_d1(chk: Check, ci: ClassInfo) -> list[FunctionInfo]:
     mutating = []
     n_stmts = 0
     for name, fi in ci.methods.items():
-        sts = statements(fi)
+        sts = statements(fi, "local")
         n_stmts += len(sts)
+        for c, p in sts:
+            if p["verb"] == "?":
+                chk.finding("D1", fi.key, f"unreadable-sql:{p['sql'][:40]}", f"the SQL `{p['sql']}` passed to a statement-executing helper is not a literal: the transaction structure cannot be checked", fi.loc(c))
         dml = [(c, p) for c, p in sts if p["verb"] in DML]
         if not dml or name.startswith("_initialize"):
             continue
@@ -173,7 +223,7 @@ def rule_d1(chk: Check, ci: ClassInfo) -> list[FunctionInfo]:
         chk.ob("D1", f"{fi.key}: {len(dml)} DML, {len(commit_nodes)} commit", ok, evals=len(dml_nodes) + len(commit_nodes))
         chk.sample({"rule": "D1", "method": fi.key, "statements": [p["sql"][:70] for _, p in sts]})
     chk.floor("D1", "SQL statements read", n_stmts, 10)
-    chk.require("D1", ci.key, "mutating methods", len(mutating), 5, "fewer mutating trust-store methods than confirmed")
+    chk.require("D1", ci.key, "mutating methods", len(mutating), 1, "no method of the trust store executes INSERT/UPDATE/DELETE any more")
     return mutating
 
 
@@ -248,12 +298,16 @@ def rule_d5(chk: Check, ci: ClassInfo) -> None:
     cols = set(sel[0]["cols"]) if sel else set()
     # export keys: dict literal assigned into data["hosts"][key]
     exp_keys: dict[str, str] = {}
-    for st in walk(ex.node):
-        if isinstance(st, ast.Assign) and isinstance(st.value, ast.Dict) and isinstance(st.targets[0], ast.Subscript):
-            for k, v in zip(st.value.keys, st.value.values):
-                if isinstance(k, ast.Constant):
-                    rd = [x.slice.value for x in walk(v) if isinstance(x, ast.Subscript) and isinstance(x.slice, ast.Constant)]
-                    exp_keys[k.value] = rd[0] if rd else "?"
+    # the per-host record: a dict literal with the constant key "hostname", wherever it is
+    # built (subscript store in a loop, value of a dict comprehension, helper of the class)
+    ex_nodes = [ex.node] + [ci.methods[(dotted(c.func) or "")[5:]].node for c in calls(ex.node) if (dotted(c.func) or "").startswith("self.") and (dotted(c.func) or "")[5:] in ci.methods and (dotted(c.func) or "")[5:] not in ("list_hosts",)]
+    for fn_ in ex_nodes:
+        for dct in walk(fn_):
+            if isinstance(dct, ast.Dict) and any(isinstance(k, ast.Constant) and k.value == "hostname" for k in dct.keys):
+                for k, v in zip(dct.keys, dct.values):
+                    if isinstance(k, ast.Constant):
+                        rd = [x.slice.value for x in walk(v) if isinstance(x, ast.Subscript) and isinstance(x.slice, ast.Constant)]
+                        exp_keys[k.value] = rd[0] if rd else "?"
     req = []
     for st in walk(im.node):
         if isinstance(st, ast.Assign) and isinstance(st.value, (ast.List, ast.Tuple)) and "required" in (dotted(st.targets[0]) or "").lower():
